@@ -37,7 +37,7 @@ ASSUMPTIONS = [
 
 OPTS = ["require_protocol", "tld_aware", "allow_spaces_in_path", "only_http_https"]
 STRICT = {"require_protocol": True, "tld_aware": True, "allow_spaces_in_path": False, "only_http_https": True}
-PROTO = re.compile(r"^[a-zA-Z]{0,64}:?//")
+PROTO = re.compile(r"^[^\W\d_]{0,64}:?//")   # letters of any script: the library's own patterns are case-insensitive, which lets e.g. U+0130 count as 'i' 
 SPECIAL = re.compile(r"^(localhost|(\d{1,3}\.){3}\d{1,3}$|\[?[\da-f]*:[\da-f:.]*\]?$)", re.I)
 
 _TLDS = {}
@@ -242,6 +242,7 @@ def _text_enum(acc, shard, nshards, seed, tier, length=3, reduced=False):
 
 def _text_strategy(tier):
     tok = st.one_of(st.sampled_from(URLS_T), st.sampled_from(MARKDOWN), st.sampled_from(WORDS), st.sampled_from(PUNCT), st.sampled_from(PUNCT),
+                    st.characters(blacklist_categories=("Cs",)),
                     G.url_structs(scheme_forms=("explicit",)).map(G.serialise))
     return st.lists(tok, min_size=1, max_size=14).map(lambda l: {"kind": "text", "text": "".join(l)})
 
